@@ -206,7 +206,8 @@ pub fn explore(prop: &str, secs: f64, seed: u64) -> i32 {
   let mut n: u64 = 0; let mut compared: u64 = 0;
   std::panic::set_hook(Box::new(|_| {}));
   let mods = [KeyCode::LEFTSHIFT, KeyCode::RIGHTSHIFT, KeyCode::LEFTCTRL, KeyCode::RIGHTCTRL, KeyCode::LEFTALT, KeyCode::RIGHTALT, KeyCode::LEFTMETA, KeyCode::RIGHTMETA];
-  while t0.elapsed().as_secs_f64() < secs {
+  // the budget is a number of cases as well as a time: on a loaded machine the search goes on (up to 5x the time) until it has tried what an idle machine tries
+  while t0.elapsed().as_secs_f64() < secs || (n < (secs * 30000.0) as u64 && t0.elapsed().as_secs_f64() < 5.0 * secs) {
     for _ in 0..200 {
       n += 1;
       if prop == "C14" {
